@@ -166,6 +166,11 @@ func (req *UploadRequest) Decode(r io.Reader) error {
 			return nil
 		}
 
+		// The filter-request follows the depth-request.
+		if bytes.HasPrefix(line, filterSpec) {
+			break
+		}
+
 		// After deepen <n>, only flush-pkt is valid
 		if req.Depth.Deepen > 0 {
 			if bytes.HasPrefix(line, deepenSince) || bytes.HasPrefix(line, deepenReference) {
@@ -176,6 +181,19 @@ func (req *UploadRequest) Decode(r io.Reader) error {
 		// After deepen-since/deepen-not, only deepen-since/deepen-not or flush is valid
 		if deepenRevList && bytes.HasPrefix(line, deepen) && !bytes.HasPrefix(line, deepenSince) && !bytes.HasPrefix(line, deepenReference) {
 			return ErrDeepenMutuallyExclusive
+		}
+	}
+
+	// filter-request: "filter" SP filter-spec
+	if bytes.HasPrefix(line, filterSpec) {
+		req.Filter = Filter(bytes.TrimPrefix(line, filterSpec))
+
+		ok, err := nextLine()
+		if err != nil {
+			return err
+		}
+		if !ok || len(line) == 0 {
+			return nil
 		}
 	}
 
